@@ -79,7 +79,7 @@ CHECKS = {
         'milestones sit exactly at the latest prerequisite end or the project start; c02_b is equivalent to that statement and the model\'s output passes it. The start clause for leaves with a user-fixed END is refuted (C02_fixed_end_conflict: start <= end of C07 wins), the reservation clause holds for them.',
         SCHED_TRUST, '4.2'),
     'C04': (
-        'Coq proof of per-task ledger facts as an invariant of the abstract scheduling machine for both passes (conservation, once per day, window, date/last-day agreement, nothing for milestones/completed/summaries, fixed dates kept) + full reflection of the oracle + exact differential correspondence',
+        'Coq proof of per-task ledger facts as an invariant of the abstract scheduling machine for both passes (conservation, once per day, window, date/last-day agreement, nothing for milestones/completed/summaries, fixed dates kept) + full reflection of the oracle + exact differential correspondence + the two fill loops translated from the source text on every run and proved equal to the model (gen/SrcFill.v, C04_src_*)',
         'Theorems (Props_C04.v, closed; WFin w, cap_nonneg, capacities <= 24h-equivalent units [cap_small, shown necessary by C04_cap_small_needed], forward/backward = Ok): C04_conserve_once, C04_window, C04_nothing, C04_fixed, both schedulers; c04_b <-> statement; model output passes the oracle.',
         SCHED_TRUST, '4.4'),
     'C06': (
@@ -114,15 +114,15 @@ CHECKS = {
         'Known finding F16 (chains deeper than the interpreter recursion limit raise RecursionError) is probed on every run and reported as KNOWN-FINDING; the model has no interpreter stack.',
         SCHED_TRUST, '4.14'),
     'C01': (
-        'Coq proof that every public mutator preserves the invariant WF (9 conjuncts: finiteness, parent/children mirror, acyclic hierarchy, symmetric duplicate-free links, no dependency cycle, no link between ancestor and descendant, id uniqueness per tree, hidden roots, ownership), by induction over histories + reflection wf_b <-> WF evaluated on the implementation\'s snapshot after every call (also raising ones) + step-wise model comparison',
-        'Theorems (Props_C01.v, closed under the global context): C01_step (WF s -> pub_args s o -> WF (fst (step s o)) for all 24 operation kinds, whatever the outcome), C01_run/C01_reach/C01_prefixes (every state reachable from init by public histories, at every prefix), C01_meaning (WF in the property\'s words over the public view), C01_oracle (wf_b s = true <-> WF s).',
+        'Coq proof that every public mutator preserves the invariant WF (9 conjuncts: finiteness, parent/children mirror, acyclic hierarchy, symmetric duplicate-free links, no dependency cycle, no link between ancestor and descendant, id uniqueness per tree, hidden roots, ownership), by induction over histories + reflection wf_b <-> WF evaluated on the implementation\'s snapshot after every call (also raising ones) + step-wise model comparison + the four relation setters of Task, the closure walks and the guards translated from the source text on every run and proved equal to the model in every well-formed state, hence WF-preserving as the source reads today (gen/SrcGraph.v, C01_src_*)',
+        'Theorems (Props_C01.v, closed under the global context): C01_step (WF s -> pub_args s o -> WF (fst (step s o)) for all 24 operation kinds, whatever the outcome), C01_run/C01_reach/C01_prefixes (every state reachable from init by public histories, at every prefix), C01_meaning (WF in the property\'s words over the public view), C01_oracle (wf_b s = true <-> WF s); C01_src_set_parent / _set_predecessors / _set_successors / _set_children (translated setter = model setter under WF) with _keeps_WF and _no_crash, C01_src_parent / _all_parents / _all_predecessors / _all_successors / _check_no_links_with / _unique_tasks.',
         GT, '4.1'),
     'C05': (
-        'Coq proof of id uniqueness (projection of WF preserved by every step), exact rejection by the id-clash guard, exact lookup and depth-first enumeration + oracle wf_ids_b and the reads wbs[id] / WBS.tasks compared on every state of generated histories',
+        'Coq proof of id uniqueness (projection of WF preserved by every step), exact rejection by the id-clash guard, exact lookup and depth-first enumeration + oracle wf_ids_b and the reads wbs[id] / WBS.tasks compared on every state of generated histories + _find_root, _collect_subtree, the children closure and the id-clash guard _has_id_intersection translated from the source text on every run and proved equal to the model (gen/SrcGraph.v, C05_src_*)',
         'Theorems (Props_C05.v, closed): C05_unique, C05_reject / C05_reject_set_parent / C05_reject_set_children (a write that would join equal ids returns (s, Err)), C05_id_clash_spec, C05_guards_no_crash, C05_lookup (wbs[i] = the member with that id, Err iff none, never a crash), C05_tasks (NoDup, membership, preorder equation), C05_reach.',
         GT, '4.5'),
     'C11': (
-        'Coq proof that Task.wbs agrees with reachability from the WBS roots in every reachable state (I_own within WF), that attach/move/remove change the owner of exactly the moved subtree, and that every removal path releases the task + oracle wf_own_b/wf_hid_b on every snapshot',
+        'Coq proof that Task.wbs agrees with reachability from the WBS roots in every reachable state (I_own within WF), that attach/move/remove change the owner of exactly the moved subtree, and that every removal path releases the task + oracle wf_own_b/wf_hid_b on every snapshot + Task._attach / _detach (the recursive change of owner) translated from the source text on every run and proved to give the whole subtree the new owner (set_own_all over subtree, the function of the model) (gen/SrcGraph.v, C11_src_attach / _detach)',
         'Theorems (Props_C11.v, closed): C11_truth (own t = Some w <-> t in wbs_tasks w), C11_reach, C11_whole_subtree / C11_subtree / C11_subtree_children, C11_removed_list / _wbs / _assignment / _list_all / _wbs_all (removed task: no owner, no parent [except a match below another match], in no WBS, ownership guard can no longer reject it).',
         GT, '4.11'),
     'C15': (
@@ -130,7 +130,7 @@ CHECKS = {
         'Theorems (Props_C15.v, closed): C15_atomic / C15_atomic_core (21 kinds, all states), C15_atomic_every_op (all 24 kinds under WF), C15_atomic_reach (every state reached by a public history), C15_remove_all_never_raises, C15_all_or_nothing; C15_refuted_lst_shift, C15_refuted_lst_set_parent, C15_refuted_new_task_rel refute the bare sequences (finding F10, repaired in /repo by 0693848).',
         GT, '4.15'),
     'C16': (
-        'Coq proof of the documented effect of every accepted mutator (exact new lists for assignment, append, insert, move, stable sort, reorder, removals; effect of the three setters incl. owner propagation and mirror lists) and of per-setter frame theorems + full-state comparison of model and implementation after every accepted call',
+        'Coq proof of the documented effect of every accepted mutator (exact new lists for assignment, append, insert, move, stable sort, reorder, removals; effect of the three setters incl. owner propagation and mirror lists) and of per-setter frame theorems + full-state comparison of model and implementation after every accepted call + the four relation setters translated from the source text on every run and proved to produce the heap and the rejections of the model in every well-formed state (gen/SrcGraph.v, C16_src_set_*)',
         'Theorems (Props_C16.v, closed): C16_move, C16_insert, C16_sort (permutation, sorted, stable, reverse), C16_reorder, C16_append, C16_remove, C16_remove_all, C16_floordiv, C16_wbs_remove, C16_set_parent, C16_set_children(+own), C16_set_links, C16_mirror, C16_frame_set_parent/_children/_links/_derived, C16_frame_only_kids.',
         GT + ' Sort keys restricted to id / integer attribute / name / estimate (None values raise TypeError); the frame is stated per setter.', '4.16'),
 }
